@@ -39,6 +39,10 @@ QUERY_FNS = [
     ("evaluate_ehrenfest_hessian", 1, 3),
     ("generate_transformation", 2, 1),
     ("real_solid_harmonic", 1, 1),
+    ("expansion_coeff", 1, 1),
+    ("harmonic_norm", 1, 1),
+    ("shift_factor", 1, 1),
+    ("permutation_libcint", 1, 1),
     ("factorial2", 1, 1),
     ("is_integral_screened", 1, 1),
     ("cls_contraction", 3, 1),
